@@ -313,4 +313,49 @@ def rule_fold_acc(prog):
                          "an arm of the fold over the custom actions of a released key yields a fresh `None` instead of handing the accumulator "
                          "on (line %s): the mouse button found by an earlier action of the same key is forgotten and never un-clicked - "
                          "`(multi mlft (on-release tap-vkey v))` leaves the left button down for ever" % fresh[0])
+    if not res.instances:
+        _loop_form(prog, res)
     return res
+
+
+def _loop_form(prog, res):
+    """the same accumulator written as a loop: `let mut last = None; for ac in custacts { match ac { Mouse(btn) => last = Some(btn), .. } }`.
+    The accumulator is a local of Option type that some statement *inside a loop* sets to Some(<field of CustomAction::Mouse>);
+    no statement inside a loop may set it to a fresh None."""
+    from rules.r_loopvar import loops_of
+    SM = "kanata_state_machine::kanata::Kanata::handle_keystate_changes"
+    f = prog.fn_opt(SM)
+    if f is None:
+        return
+    body = set()
+    for lp in loops_of(f):
+        body |= set(lp.body)
+    accs = {}
+    for b, si, st in f.all_rvalues():
+        if b not in body or proj(st["p"]):
+            continue
+        rv = st["rv"]
+        if rv["k"] == "agg" and rv.get("adt") == "core::option::Option" and rv.get("v") == "Some" and rv["ops"] and is_place(rv["ops"][0]):
+            # the payload comes out of a CustomAction::Mouse
+            o = rv["ops"][0]
+            for _ in range(6):
+                if any(isinstance(e, dict) and e.get("v") == "Mouse" and (e.get("adt") or "").endswith("CustomAction") for e in proj(o)):
+                    accs.setdefault(st["p"]["l"], (b, si))
+                    break
+                d = f.single_def(o["l"])
+                if not d or d[2] != "assign" or d[3]["k"] not in ("use", "ref") or not is_place(d[3].get("a") or d[3].get("p")):
+                    break
+                o = d[3].get("a") or d[3].get("p")
+    for l, (b0, s0) in sorted(accs.items()):
+        res.fn(f)
+        fresh = [f.line_of(b, si) for b, si, st in f.all_rvalues()
+                 if b in body and not proj(st["p"]) and st["p"]["l"] == l and st["rv"]["k"] == "agg"
+                 and st["rv"].get("adt") == "core::option::Option" and st["rv"].get("v") == "None"]
+        key = "handle_keystate_changes/loop-accumulator"
+        ok = not fresh
+        res.inst(key, where="%s:%s" % (f.file, f.line_of(b0, s0)), local=f.local_name(l), ok=ok)
+        res.oblige(ok)
+        if not ok:
+            res.viol(key, "%s:%s" % (f.file, fresh[0]),
+                     "the loop over the custom actions of a released key resets the remembered mouse button to `None` (line %s): the "
+                     "button found by an earlier action of the same key is forgotten and never un-clicked" % fresh[0])
